@@ -29,27 +29,37 @@ INSERTERS = ("insert", "push_back", "push_front", "push", "put")
 
 
 def _is_expiry_test(tr, e0):
-    """e0 returns `<field of self>.elapsed() > <parameter>` (or >=)"""
-    for (i, j, node) in ret_assigns(tr, e0):
+    """e0 returns `time since <field of self> > <parameter>` (or >=), in any of the forms elapsed_form knows
+    (elapsed(), now.duration_since(x), now.saturating_duration_since(x), ...); judged on the fully inlined body, so
+    an extracted `age()` helper does not matter"""
+    from ..inline import view_of
+    ff, ftr = view_of(tr.facts, "full")
+    e1 = ff.bodies.get(e0.def_) or e0
+    for (i, j, node) in ret_assigns(ftr, e1):
         for lf in leaves(node):
-            cm = normalise_cmp(tr, lf)
+            cm = normalise_cmp(ftr, lf)
             if cm is None:
                 continue
-            op, x, y = cm
-            if op in ("Lt", "Le"):
-                op, x, y = {"Lt": "Gt", "Le": "Ge"}[op], y, x
-            el = calls_in(tr, x, lambda c: c.name == "elapsed")
-            if op in ("Gt", "Ge") and el:
-                recv = peel(tr.expand(tr.operand(el[0].g.b, el[0].args[0], el[0].loc)))
-                ttl_side = any(n[0] == "param" for n in tr.walk(y, limit=30))
-                if recv[0] == "field" and peel(recv[1])[0] == "param" and ttl_side:
-                    return True
+            ef = elapsed_form(ftr, cm)
+            if ef is None:
+                continue
+            start, dur = peel(ef[0]), ef[1]
+            while start[0] in ("ref", "deref"):
+                start = peel(start[1])
+            ttl_side = any(n[0] == "param" for n in ftr.walk(dur, limit=30))
+            if start[0] == "field" and peel(start[1])[0] in ("param", "deref", "ref") and ttl_side:
+                return True
     return False
 
 
 def run(facts, tr, rep):
     _n_ops = check_no_panicking_time_arith(facts, tr, rep, "C10.NO-PANIC-ARITH", facts.crates["tower_resilience_cache"].bodies)
     rep.note("panicking Instant/Duration operators examined: %d" % _n_ops)
+    # the service-level clauses (MISS-ONLY, STORE-ON-OK, KEY) use the shallow view: free helper functions and glue
+    # methods of the service are inlined, the store's methods stay calls; the store itself, the constructors and the
+    # layers are judged on the program as written
+    facts0, tr0 = facts, tr
+    facts, tr = facts.shallow, tr.shallow
     sbs = service_call_bodies(facts, crate=CRATE)
     if not sbs:
         rep.anchor_missing("Service::call of the cache service")
@@ -182,6 +192,8 @@ def run(facts, tr, rep):
             live += [l for l in range(len(ch.locals)) if "MutexGuard" in ch.local_ty(l)["s"] and not ch.local_ty(l)["s"].startswith("core::result") and cg.maybe_init(l, a.yield_bb)]
         rep.ob("C10.SHARE", skey(ch, "no-lock-across-await"), not live, c.where(),
                "the store mutex is never held across a suspension point" if not live else "a store mutex guard is live at a suspension point")
+    facts, tr = facts0, tr0
+    sb = facts.bodies.get(sb.def_)
     # ---------------------------------------------------------------- EXPIRY
     store_get = [b for b in facts.crates[CRATE].bodies if b.def_.endswith("CacheStore::<K, V>::get")]
     if not store_get:
